@@ -220,6 +220,7 @@ const (
 	fRemove  = 2048
 	fMulti   = 4096
 	fQuiet   = 8192
+	fLate    = 16384
 )
 
 // request kinds of HarnessWorld
@@ -293,7 +294,7 @@ func init() {
 	register(&CheckSpec{ID: "C03", Patterns: []string{pkgServer},
 		Jobs: func(tier string) []*JobCfg {
 			if tier == "thorough" {
-				return []*JobCfg{world(3, 1, 1, 9, kG|kM, fUnowned), world(3, 2, 1, 8, kG|kM, fUnowned), world(3, 1, 1, 8, kG|kM, fHangup), world(3, 1, 1, 8, kG|kM, fDial), world(3, 1, 1, 8, kG|kM, fBackErr), world(3, 1, 1, 7, kG|kM, fLoss), world(3, 1, 1, 7, kG|kM, fTimeout), worldO(3, 1, 1, 7, kM, fUnowned), world(3, 2, 1, 7, kG|kM, fMulti|fBatch), world(3, 1, 1, 7, kG|kM, fRemove), noMapOrder(job(pkgServer, "HarnessBig", 0, 5000, 20, 256)), noMapOrder(job(pkgServer, "HarnessBig", 0, 17000, 30, 32768)), noMapOrder(job(pkgServer, "HarnessBig", 0, 17000, 17000, 256)), noMapOrder(job(pkgServer, "HarnessBig", 0, 70000, 5000, 65536)), noMapOrder(job(pkgServer, "HarnessBig", 2, 9000, 20, 256)), noMapOrder(job(pkgServer, "HarnessBig", 2, 9000, 5000, 256)), noMapOrder(job(pkgServer, "HarnessBig", 2, 70000, 5000, 65536)), noMapOrder(job(pkgServer, "HarnessBig", 2, 17000, 17000, 32768))}
+				return []*JobCfg{world(3, 1, 1, 9, kG|kM, fUnowned), world(3, 2, 1, 8, kG|kM, fUnowned), world(3, 1, 1, 8, kG|kM, fHangup), world(3, 1, 1, 8, kG|kM, fDial), world(3, 1, 1, 8, kG|kM, fBackErr), world(3, 1, 1, 7, kG|kM, fLoss), world(3, 1, 1, 7, kG|kM, fTimeout), worldO(3, 1, 1, 7, kM, fUnowned), world(3, 2, 1, 7, kG|kM, fMulti|fBatch), world(3, 1, 1, 7, kG|kM, fRemove), world(3, 1, 1, 8, kG|kM, fHangup|fLate), noMapOrder(job(pkgServer, "HarnessBig", 0, 5000, 20, 256)), noMapOrder(job(pkgServer, "HarnessBig", 0, 17000, 30, 32768)), noMapOrder(job(pkgServer, "HarnessBig", 0, 17000, 17000, 256)), noMapOrder(job(pkgServer, "HarnessBig", 0, 70000, 5000, 65536)), noMapOrder(job(pkgServer, "HarnessBig", 2, 9000, 20, 256)), noMapOrder(job(pkgServer, "HarnessBig", 2, 9000, 5000, 256)), noMapOrder(job(pkgServer, "HarnessBig", 2, 70000, 5000, 65536)), noMapOrder(job(pkgServer, "HarnessBig", 2, 17000, 17000, 32768))}
 			}
 			return []*JobCfg{world(3, 1, 1, 7, kG|kM, fUnowned), world(3, 1, 1, 6, kG|kM, fHangup), world(3, 1, 1, 6, kM, fDial), world(3, 1, 1, 6, kG|kM, fBackErr), world(3, 2, 1, 6, kG|kM, fMulti|fBatch), noMapOrder(job(pkgServer, "HarnessBig", 0, 5000, 20, 256)), noMapOrder(job(pkgServer, "HarnessBig", 0, 17000, 30, 32768)), noMapOrder(job(pkgServer, "HarnessBig", 2, 9000, 20, 256)), noMapOrder(job(pkgServer, "HarnessBig", 2, 9000, 5000, 256))}
 		},
@@ -305,12 +306,12 @@ func init() {
 	register(&CheckSpec{ID: "C15", Patterns: []string{pkgServer},
 		Jobs: func(tier string) []*JobCfg {
 			if tier == "thorough" {
-				return []*JobCfg{world(15, 2, 0, 8, kG|kM, fLoss), world(15, 2, 0, 7, kG|kM, fLoss|fProbe), world(15, 1, 1, 7, kG|kM, fLoss), world(15, 2, 0, 8, kG|kM, fDial), world(15, 2, 0, 7, kG|kM, fLoss|fSplit), job(pkgServer, "HarnessC13", 0, 1), job(pkgServer, "HarnessC13", 1, 1), job(pkgServer, "HarnessC13", 0, 2), world(15, 2, 0, 7, kG|kM, fRemove), world(15, 1, 1, 6, kG|kM, fRemove), world(15, 3, 0, 7, kG|kM, fLoss|fBatch), world(15, 2, 0, 8, kG|kM, fQuiet), world(15, 1, 1, 7, kG|kM, fQuiet|fBatch)}
+				return []*JobCfg{world(15, 2, 0, 8, kG|kM, fLoss), world(15, 2, 0, 7, kG|kM, fLoss|fProbe), world(15, 1, 1, 7, kG|kM, fLoss), world(15, 2, 0, 8, kG|kM, fDial), world(15, 2, 0, 7, kG|kM, fLoss|fSplit), job(pkgServer, "HarnessC13", 0, 1), job(pkgServer, "HarnessC13", 1, 1), job(pkgServer, "HarnessC13", 0, 2), world(15, 2, 0, 7, kG|kM, fRemove), world(15, 1, 1, 6, kG|kM, fRemove), world(15, 3, 0, 7, kG|kM, fLoss|fBatch), world(15, 2, 0, 8, kG|kM, fQuiet), world(15, 1, 1, 7, kG|kM, fQuiet|fBatch), world(15, 1, 1, 8, kG, fLoss|fHangup|fLate), world(15, 1, 1, 8, kG|kM, fQuiet|fHangup|fLate)}
 			}
-			return []*JobCfg{world(15, 2, 0, 6, kG|kM, fLoss), world(15, 1, 0, 6, kG, fLoss|fProbe), world(15, 2, 0, 6, kG|kM, fDial), job(pkgServer, "HarnessC13", 0, 1), world(15, 2, 0, 5, kG|kM, fRemove), world(15, 2, 0, 6, kG, fLoss|fBatch), world(15, 2, 0, 6, kG|kM, fQuiet)}
+			return []*JobCfg{world(15, 2, 0, 6, kG|kM, fLoss), world(15, 1, 0, 6, kG, fLoss|fProbe), world(15, 2, 0, 6, kG|kM, fDial), job(pkgServer, "HarnessC13", 0, 1), world(15, 2, 0, 5, kG|kM, fRemove), world(15, 2, 0, 6, kG, fLoss|fBatch), world(15, 2, 0, 6, kG|kM, fQuiet), world(15, 1, 1, 8, kG, fLoss|fHangup|fLate)}
 		},
 		Bounds: func(tier string) string {
-			return "pipelines of 2 requests (GET / two-key MGET), a backend connection lost at ANY point of every schedule up to 6/8 events (before the request is written, after it, after other replies; noticed by reading EOF or only by the next write failing), or node B removed from the topology by the ticker (slots unowned or taken over), or dialling a node failing, or a redirect naming an unknown node; at quiescence every request is answered or its client closed"
+			return "pipelines of 2 requests (GET / two-key MGET), a backend connection lost at ANY point of every schedule up to 6/8 events (before the request is written, after it, after other replies; noticed by reading EOF or only by the next write failing), or node B removed from the topology by the ticker (slots unowned or taken over), or dialling a node failing, or a redirect naming an unknown node; a client that disconnects with a request in flight and another that connects afterwards (and gets the freed descriptor number) before the backend is lost; at quiescence every request is answered or its client closed"
 		},
 		Assumptions: []string{worldAssume, "'lost' = the backend closes its end and the proxy reads EOF"}, Stubs: []string{stubWorld},
 		Outside: []string{"loss in the middle of a reply's bytes, node removal by the topology ticker, write errors other than EOF"}})
